@@ -134,6 +134,12 @@ fn os_val(o: OsString) -> Val {
 }
 
 fn fallback_val(it: &J) -> Val {
+    if s(it, "kind") == "alt" {
+        // a defaulted group / choice: the default is the first branch made of its members' default values
+        let f = arr(&it["branches"][0], "fields");
+        let v = if f.len() == 1 { group_default(&f[0]) } else { Val::Tuple(f.iter().map(group_default).collect()) };
+        return Val::Variant(0, Box::new(v));
+    }
     match s(it, "vt") {
         "int" => Val::Int(FALLBACK_INT),
         "none" | "" if s(it, "kind") == "reqflag" => Val::Unit,
@@ -147,7 +153,7 @@ fn group_default(f: &J) -> Val {
         ("switch", _) => Val::Bool(false),
         ("reqflag", _) => Val::Unit,
         (_, "opt") => Val::Nothing,
-        (_, "many") => Val::List(vec![]),
+        (_, "many") | (_, "some") => Val::List(vec![]),
         _ => match s(f, "vt") {
             "int" => Val::Int(7),
             _ => Val::Bytes(b"d".to_vec()),
@@ -456,6 +462,15 @@ pub fn build_node(it: &J) -> P {
                 c = c.adjacent();
             }
             c.boxed()
+        }
+        "alt" if b(it, "via_choice") => {
+            // the same choice through the `choice` function instead of `construct!([..])`
+            let branches: Vec<P> = arr(it, "branches")
+                .iter()
+                .enumerate()
+                .map(|(k, br)| build_node(br).map(move |v| Val::Variant(k, Box::new(v))).boxed())
+                .collect();
+            bpaf::choice(branches).boxed()
         }
         "alt" => alt(arr(it, "branches").iter().map(build_node).collect()),
         "branch" => {
